@@ -51,7 +51,7 @@ ASSUMPTIONS = [
     "Pasqal: measurement with invert_mask raises the documented NotImplementedError",
     "directed device graphs: a routed operation must follow the direction of its edge (the router's own adjacency test), inserted "
     "SWAPs on one-way edges are the documented CNOT/H decomposition",
-    "non-termination watchdogs (120 s routing, 300 s compilation; the guarded calls take milliseconds) turn a hang into a violation",
+    "non-termination watchdogs (20 s routing, 300 s compilation; the guarded calls take milliseconds) turn a hang into a violation",
 ]
 SENSITIVITY = [
     "core: keep-old-vs-new two-qubit count choice inverted", "core: tags_to_ignore not passed to the decompose step",
@@ -63,6 +63,18 @@ SENSITIVITY = [
     "aqt: H special case uses ry(+pi/2)", "pasqal: two-qubit synthesis on swapped qubits", "pasqal: virtual device distance limit off by boundary",
     "ionq: API gateset CCZPowGate decomposition ignores the exponent",
 ]
+
+
+def uncovered():
+    return [
+        "parameterised (symbolic) circuits and the sqrt-iSWAP parameterised decomposition path",
+        "circuits wider than 3 qubits / operations on more than 3 qubits; non-unitary operations other than a terminal measurement",
+        "Sycamore tabulation: only a fidelity bound for one 2-qubit unitary (approximate by design)",
+        "GridDevice._from_device_information, Coupler qubits, InternalGate / analog gate specs; device duration metadata",
+        "routing with context.deep (CircuitOperation unrolling), >2-qubit mid-circuit measurements, custom cost functions",
+        "directed device graphs with one-way edges while finding F16 (router livelock) is open",
+        "minimality of the synthesised two-qubit-gate count beyond the documented worst case",
+    ]
 
 
 class _Hang(BaseException):
@@ -350,12 +362,12 @@ def oracle_route(case):
     directed = bool(case["graph"].get("directed"))
     before = circuit.copy()
     router = cirq.RouteCQC(graph)
-    with _watchdog(120, "RouteCQC.route_circuit"):
+    with _watchdog(20, "RouteCQC.route_circuit"):
         routed, initial_map, swap_map = router.route_circuit(circuit, lookahead_radius=int(case["lookahead"]) or 1,
                                                              tag_inserted_swaps=bool(case["tag"]), initial_mapper=mapper)
     if circuit != before:
         raise Violation("route_circuit modified its input circuit")
-    with _watchdog(120, "RouteCQC.__call__"):
+    with _watchdog(20, "RouteCQC.__call__"):
         called = router(circuit, lookahead_radius=int(case["lookahead"]) or 1, tag_inserted_swaps=bool(case["tag"]), initial_mapper=mapper)
     if called != routed:
         raise Violation("RouteCQC.__call__ returns a different circuit than route_circuit()[0] for the same arguments")
@@ -490,7 +502,8 @@ def oracle_device_grid(case):
         reasons[why] += 1
         ops.append((op, ok))
     # circuit-level: valid iff every operation is valid
-    chosen = [ops[i % len(ops)] for i in case.get("circ", [])] if ops else []
+    pool = [x for x in ops if x[1]] if case.get("circ_valid_only") and any(x[1] for x in ops) else ops
+    chosen = [pool[i % len(pool)] for i in case.get("circ", [])] if pool else []
     if chosen:
         c = cirq.Circuit()
         for op, _ in chosen:
@@ -601,7 +614,8 @@ def oracle_device_vendor(case):
         reasons[why] += 1
         ops.append((op, ok, key))
     # circuit level
-    chosen = [ops[i % len(ops)] for i in case.get("circ", [])] if ops else []
+    pool = [x for x in ops if x[1]] if case.get("circ_valid_only") and any(x[1] for x in ops) else ops
+    chosen = [pool[i % len(pool)] for i in case.get("circ", [])] if pool else []
     if chosen:
         c = cirq.Circuit()
         for op, _, _ in chosen:
@@ -640,55 +654,51 @@ def _walk_ops(lst):
             yield o
 
 
-def _aqt_repeated_single_op_cop(case):
-    """F17 trigger: AQTTargetGateset._decompose_single_qubit_operation unwraps a one-moment, one-qubit CircuitOperation to its
-    only operation and thereby drops `repetitions`."""
-    g = case["gs"]
-    if g.get("k") != "aqt":
-        return False
-    r = case["circ"]
-    for o in r.get("ops", []):
-        if o.get("k") == "cop" and int(o.get("rep", 1)) != 1:
-            sub = [CG.build_plain_op(r, x, g) for x in o.get("ops", []) if x.get("k") != "cop"]
-            sub = [x for x in sub if x is not None]
-            if len(sub) == 1 and len(sub[0].qubits) == 1:
+def _near_weyl_boundary(x):
+    """any numeric leaf within (0, 1e-6) of a multiple of 1/8 (exponents) or of pi/16 (angles), or an explicit `eps` offset"""
+    import math
+
+    if isinstance(x, dict):
+        return bool(x.get("eps")) or any(_near_weyl_boundary(v) for v in x.values())
+    if isinstance(x, list):
+        return any(_near_weyl_boundary(v) for v in x)
+    if isinstance(x, float):
+        for unit in (0.125, math.pi / 16):
+            d = abs(x / unit - round(x / unit)) * unit
+            if 0 < d < 1e-6:
                 return True
     return False
 
 
-def _stratify_with_zero_qubit_ops(case):
-    """F6 trigger (C06's finding): cirq.stratified_circuit loses operations when zero-qubit (global phase) operations are present;
-    CZTargetGateset(preserve_moment_structure=False) runs it as a post-processor."""
+def _sqrt_iswap_tight_atol_near_corner(case):
+    """F18 trigger: SqrtIswapTargetGateset(atol < 1e-8) on an input within ~atol of a Weyl-chamber corner (KAK sub-decomposition
+    inside _decomp_2sqrt_iswap_matrices is run with atol/10, below the numerical noise of the input)."""
     g = case["gs"]
-    if g.get("k") != "cz" or g.get("pms", True):
-        return False
-    circuit, _, _ = CG.build_compile_circuit(case["circ"], g)
-    # zero-qubit operations reach stratified_circuit when the input has one or when a >2-qubit operation (expanded by the
-    # pre-processor) decomposes into one
-    for op in _flat_ops(circuit):
-        if len(op.qubits) == 0 or (len(op.qubits) > 2 and _has_global_phase(cirq.Circuit(op))):
-            return True
-    return any(len(op.qubits) > 2 for op in circuit.all_operations() if isinstance(op.untagged, cirq.CircuitOperation)) and _has_global_phase(circuit)
+    return g.get("k") == "sqrt_iswap" and float(g.get("atol", 1e-8)) < 1e-8 and _near_weyl_boundary(case["circ"].get("ops", []))
 
 
 KNOWN_FEATURES = {
-    "F6_stratified_circuit_zero_qubit_ops": lambda sub, r: sub.startswith(("compile", "twoq")) and _stratify_with_zero_qubit_ops(r),
-    "F17_aqt_gateset_drops_repetitions": lambda sub, r: sub.startswith("compile") and _aqt_repeated_single_op_cop(r),
+    "F18_sqrt_iswap_tight_atol_near_weyl_corner": lambda sub, r: sub in ("compile_core", "twoq", "sqrt_iswap_required") and _sqrt_iswap_tight_atol_near_corner(r),
     "F16_route_cqc_unidirectional_edges_livelock": lambda sub, r: sub == "route" and _unidirectional(r),
 }
 
 
 SUBCHECKS = [
-    SubCheck("compile_core", CG.compile_cases(CG.CORE_KINDS), oracle_compile, quick=1600, thorough=40000, shards_quick=4,
-             essential={"nontrivial": 0.2, "has_ignored": 0.05, "has_cop": 0.05, "native_input": 0.05}),
-    SubCheck("compile_vendor", CG.compile_cases(CG.VENDOR_KINDS), oracle_compile, quick=1600, thorough=40000, shards_quick=4,
-             essential={"nontrivial": 0.15}),
-    SubCheck("twoq", CG.twoq_cases(), oracle_twoq, quick=1200, thorough=30000, shards_quick=2),
-    SubCheck("sqrt_iswap_required", CG.twoq_cases_single(), oracle_sqrt_iswap_required, quick=400, thorough=10000, shards_quick=2),
-    SubCheck("syc_tabulation", CG.twoq_cases_single(), oracle_syc_tabulation, quick=150, thorough=6000, shards_quick=1, shards_thorough=4),
-    SubCheck("route", CG.route_cases(), oracle_route, quick=1500, thorough=40000, shards_quick=4, essential={"swaps_inserted": 0.2}),
-    SubCheck("device_grid", CG.grid_device_cases(), oracle_device_grid, quick=800, thorough=20000, shards_quick=2,
-             essential={"nontrivial": 0.5}),
-    SubCheck("device_vendor", CG.vendor_device_cases(), oracle_device_vendor, quick=1200, thorough=30000, shards_quick=2,
-             essential={"nontrivial": 0.5}),
+    SubCheck("compile_core", CG.compile_cases(CG.CORE_KINDS), oracle_compile, quick=3000, thorough=60000, shards_quick=8, shards_thorough=16,
+             essential={"nontrivial": 0.2, "has_ignored": 0.05, "has_cop": 0.1, "native_input": 0.1, "three_qubit_op": 0.05, "deep": 0.03},
+             doc="CZ / sqrt-iSWAP / Sycamore / GoogleCZ targets: native + validate, equivalent, no new qubits, ignored ops untouched, counts"),
+    SubCheck("compile_vendor", CG.compile_cases(CG.VENDOR_KINDS), oracle_compile, quick=3000, thorough=60000, shards_quick=8, shards_thorough=16,
+             essential={"nontrivial": 0.15, "three_qubit_op": 0.05}, doc="IonQ API / Aria / Forte / AQT / Pasqal targets, same oracle"),
+    SubCheck("twoq", CG.twoq_cases(), oracle_twoq, quick=2000, thorough=40000, shards_quick=4, shards_thorough=16,
+             essential={"nontrivial": 0.3}, doc="2-qubit inputs: documented worst-case two-qubit-gate counts, required count exact"),
+    SubCheck("sqrt_iswap_required", CG.twoq_cases_single(), oracle_sqrt_iswap_required, quick=600, thorough=10000, shards_quick=2,
+             shards_thorough=8, doc="required_sqrt_iswap_count in {0,1,2,3} on one unitary: exact count or ValueError only when needed"),
+    SubCheck("syc_tabulation", CG.twoq_cases_single(), oracle_syc_tabulation, quick=150, thorough=6000, shards_quick=1, shards_thorough=4,
+             doc="SycamoreTargetGateset with a gate tabulation (approximate; own fidelity bound)"),
+    SubCheck("route", CG.route_cases(), oracle_route, quick=3000, thorough=60000, shards_quick=4, shards_thorough=16,
+             essential={"swaps_inserted": 0.2, "tagged": 0.2}, doc="RouteCQC: edges, injective initial map, equality up to reported permutation"),
+    SubCheck("device_grid", CG.grid_device_cases(), oracle_device_grid, quick=1200, thorough=30000, shards_quick=2, shards_thorough=8,
+             essential={"nontrivial": 0.5, "rej_pair": 0.3, "rej_qubit": 0.15}, doc="GridDevice validate_* iff reference predicate"),
+    SubCheck("device_vendor", CG.vendor_device_cases(), oracle_device_vendor, quick=2000, thorough=40000, shards_quick=2, shards_thorough=8,
+             essential={"nontrivial": 0.5, "rej_qubit": 0.2}, doc="IonQAPIDevice / AQTDevice / PasqalDevice / PasqalVirtualDevice validate_* iff predicate"),
 ]
